@@ -15,10 +15,12 @@ func TestProp_PipeMQ(t *testing.T)    { PartMQ.Run(t) }
 func TestProp_SyncQ(t *testing.T)     { PartSync.Run(t) }
 func TestProp_PriQ(t *testing.T)      { PartPri.Run(t) }
 func TestProp_Deep(t *testing.T)      { PartDeep.Run(t) }
+func TestProp_Saw(t *testing.T)       { PartSaw.Run(t) }
 
 func TestReplay(t *testing.T) {
 	for _, p := range []*vkit.Part[Case]{PartQ, PartAsync, PartMux, PartMQ, PartSync, PartPri} {
 		p.Replay(t, 1)
 	}
 	PartDeep.Replay(t, 1)
+	PartSaw.Replay(t, 1)
 }
